@@ -41,6 +41,33 @@ def analyze(repo) -> Result:
     pkg = Package(repo)
     res = Result()
     res.pkg = pkg
+    # pass 1: which attributes does each method bind to something that is not freshly allocated (transitively over self calls)
+    direct = {}
+    for q in sorted(pkg.funcs):
+        f = pkg.funcs[q]
+        if f.cls is None:
+            continue
+        nf = set()
+        for var in f.variants:
+            try:
+                fx = FX(pkg, f, var)
+                fx.run()
+                nf |= fx.nf_direct
+            except (Unclassified, RecursionError):
+                nf |= set(f.attrs_written)
+        direct[q] = nf
+    changed = True
+    while changed:
+        changed = False
+        for q, nf in direct.items():
+            f = pkg.funcs[q]
+            for mname in f.self_calls:
+                m = pkg.lookup_method(f.cls, mname)
+                if m is not None and m.qual in direct and not direct[m.qual] <= nf:
+                    nf |= direct[m.qual]
+                    changed = True
+    for q, nf in direct.items():
+        pkg.funcs[q].attrs_nf = set(nf) & set(pkg.funcs[q].attrs_written)
     raw = {}
     for q in sorted(pkg.funcs):
         f = pkg.funcs[q]
